@@ -1,7 +1,7 @@
 """C03 — run-to-completion: nested events are queued, FIFO, never interleaved."""
 import gen
 from engcorr import engine_check
-from framework import lean_obligations
+from framework import lean_obligations, safe_probe
 
 PROFILE = gen.Profile(
     p_nested=1.0, max_nested_rows=5, p_raise=0.1, p_validator_raise=0.05, p_rtc_off=0.25,
@@ -399,15 +399,15 @@ def probe_burst(seed, cases=6):
 
 def run(ctx):
     lean_obligations(ctx)
-    pb = probe_burst(ctx.seed, 6 if ctx.tier == "quick" else 40)
+    pb = safe_probe(probe_burst, ctx.seed, 6 if ctx.tier == "quick" else 40)
     ctx.coverage["burst_cases"] = 6 if ctx.tier == "quick" else 40
     if pb:
         ctx.violation(ctx.write_replay("burst.txt", "\n".join(pb) + "\n"), pb[0][:160])
-    pc = probe_cancelled_sender(ctx.seed)
+    pc = safe_probe(probe_cancelled_sender, ctx.seed)
     ctx.coverage["cancelled_sender_cases"] = 30
     if pc:
         ctx.violation(ctx.write_replay("cancelled_sender.txt", "\n".join(pc) + "\n"), pc[0])
-    pf = probe_attach_inside_callback(ctx.seed)
+    pf = safe_probe(probe_attach_inside_callback, ctx.seed)
     ctx.coverage["attach_inside_callback_cases"] = 24
     if pf:
         ctx.violation(ctx.write_replay("attach_inside_callback.txt", "\n".join(pf) + "\n"), pf[0])
